@@ -353,9 +353,29 @@ theorem pax_record_spec (pc : PaxCfg) (st : PaxState) (kw value rest : Bytes) (h
             (paxRecord (ascii "linkpath") value).length) := by
   refine ⟨paxLine_record pc st kw value rest hne hk hsp, ?_, ?_⟩
   · have : findHandler (ascii "path") = some .path := by decide
-    simp only [paxApply, this, applyHandler, kindFlag]
+    have hne : ¬ (PaxKind.path = PaxKind.sparseMap) := by decide
+    simp only [paxApply, this, applyHandler, kindFlag, hne, if_false]
   · have : findHandler (ascii "linkpath") = some .linkpath := by decide
-    simp only [paxApply, this, applyHandler, kindFlag]
+    have hne : ¬ (PaxKind.linkpath = PaxKind.sparseMap) := by decide
+    simp only [paxApply, this, applyHandler, kindFlag, hne, if_false]
+
+/--
+**`GNU.sparse.map` replaces the list** (pax_header.c:350-353, /repo 56b164f).  A `GNU.sparse.map` record (PAX sparse format 0.1) sets
+the member's sparse map to the parsed list and makes the parser forget the tail of the list that earlier `GNU.sparse.numbytes`
+records (format 0.0) were appended to; the next `GNU.sparse.numbytes` record therefore starts a new one-element list instead of
+appending to the replaced (freed) one.  Whatever kind of record comes last determines the map.
+-/
+theorem pax_sparse_map_replaces (pc : PaxCfg) (st : PaxState) (value : Bytes) (len : Nat) (m : List (Nat × Nat))
+    (hm : paxSparseMap (cstr value) = some m) :
+    ∃ st1, paxApply pc st (ascii "GNU.sparse.map") value len = some (st1, len) ∧ st1.out.sparse = m ∧ st1.sparseStarted = false ∧
+      ∀ (v2 : Bytes) (len2 v n : Nat), parseUint (cstr v2) = some (v, n) →
+        ∃ st2, paxApply pc st1 (ascii "GNU.sparse.numbytes") v2 len2 = some (st2, len2) ∧ st2.out.sparse = [(st1.offset, v)] := by
+  have h1 : findHandler (ascii "GNU.sparse.map") = some .sparseMap := by decide
+  have h2 : findHandler (ascii "GNU.sparse.numbytes") = none := by decide
+  have h3 : ¬ (ascii "GNU.sparse.numbytes" = ascii "GNU.sparse.offset") := by decide
+  refine ⟨_, by simp only [paxApply, h1, applyHandler, hm, Option.map_some, if_true]; rfl, rfl, rfl, ?_⟩
+  intro v2 len2 v n hv
+  refine ⟨_, by simp only [paxApply, h2, h3, if_false, if_true, hv, Bool.false_eq_true]; rfl, rfl⟩
 
 /-! ## sparse files (`iterator.c`) -/
 
@@ -627,8 +647,8 @@ nodes.  Then
 theorem fixpoint_entry_level (img : ImgData) (t : List TNode) (h : FromImage img t) (i : Nat) (hi : i < t.length)
     (counter : Nat) (rest : Bytes) (devs : List (List Bytes × Nat × Nat)) :
     ∃ b, entryBytes img t[i] counter = some b ∧
-      (∃ x s1 k1, IterEntry.view x = viewOf img t[i] ∧ s1.drop k1 = rest ∧
-        ∀ f s0 k acc, s0.drop k = b ++ rest →
+      (∃ x s1 k1, IterEntry.view x = viewOf img t[i] ∧ istreamSkip s1 k1 = some rest ∧
+        ∀ f s0 k acc, istreamSkip s0 k = some (b ++ rest) →
           iterLoop {} 512 (f + 1) s0 k acc = iterLoop {} 512 f s1 k1 (acc ++ [x])) ∧
       (∀ x, IterEntry.view x = viewOf img t[i] →
         convStep processEntry {} (some (t.take i, devs)) x =
@@ -829,6 +849,17 @@ example : IsHdr (hdrBlock (field 100 ((ascii "././@LongLink").take 99)) 0o644 0 
   ext_isHdr ⟨[], 0, 0, 0, 0, 0, 0, 0, false⟩ (ascii "a/long/name") 76 (ascii "././@LongLink") (by decide)
 
 example : (paxRecord (ascii "path") (ascii "x/y")) = ascii "12 path=x/y\n" := by decide
+-- `pax_sparse_map_replaces`: its hypothesis holds for a real map; and the whole parser on numbytes, map, numbytes in one PAX header
+-- (the input of /repo 56b164f): the record that comes last determines the map
+example : paxSparseMap (cstr (ascii "10,3,20,2")) = some [(10, 3), (20, 2)] := by decide
+set_option maxRecDepth 1000000 in
+example : (readPaxHeader {} (paxRecord (ascii "GNU.sparse.offset") (ascii "1") ++ paxRecord (ascii "GNU.sparse.numbytes") (ascii "2") ++
+      paxRecord (ascii "GNU.sparse.map") (ascii "10,3,20,2") ++ paxRecord (ascii "GNU.sparse.offset") (ascii "50") ++
+      paxRecord (ascii "GNU.sparse.numbytes") (ascii "4")) {} 0).map (·.1.sparse) = some [(50, 4)] := by decide
+-- the reader on streams that end inside the padding of an extension record / inside a 'g' record (since /repo 1ef571c: error)
+set_option maxRecDepth 1000000 in
+example : recordToMemory ([1, 2, 3] ++ zeros 508) 3 = none ∧ (recordToMemory ([1, 2, 3] ++ zeros 509 ++ [7]) 3).map (·.2) = some [7] := by
+  decide
 
 /-- `implicit_parents`: its hypothesis is satisfiable (two directories are created implicitly) -/
 example : (addGeneric {} [] ⟨ascii "a/b/c", 0o100644, 0, 0, 0, false, none, 0, 0⟩).map (fun t => t.map (·.path)) =
